@@ -11,7 +11,7 @@ Transcribed from
   codegen/src/pushable.rs, getable.rs, vm_type.rs   the derive expansions
   vm/src/api/ser.rs:251-581    the serde Serializer (`Ser`)
   std/map.glu:14-56            Map / insert
-  vm/src/thread.rs:850-867     get_global; vm/src/value.rs:523-544 obj_eq; thread.rs:320-329 unroot_
+  vm/src/thread.rs:850-867     get_global; vm/src/value.rs:523-545 obj_eq; thread.rs:320-329 unroot_
 No imports besides the protocol-free core: this file is linked into the driver.
 -/
 namespace GluonModel.Marshal
@@ -498,16 +498,13 @@ def getGlobal (requested actual : TCode) : GlobalResult :=
 
 /-! ### rooting (thread.rs:237-251 `RootedValue::new`, :320-329 `unroot_`) -/
 
-/-- IEEE `==` on f64 bit patterns -/
-def f64Eq (a b : Nat) : Bool :=
-  !isNaN64 a && !isNaN64 b && (a == b || (a % 9223372036854775808 == 0 && b % 9223372036854775808 == 0))
-
-/-- value.rs:523 `Value::obj_eq` on the unboxed values (pointers are not modelled: `none`) -/
+/-- value.rs:523 `Value::obj_eq` on the unboxed values (pointers are not modelled: `none`).
+    Since fix 5d628f8 floats are compared by bit pattern (value.rs:542). -/
 def objEq : GV → GV → Option Bool
   | .tag a, .tag b => some (a == b)
   | .byte a, .byte b => some (a == b)
   | .int a, .int b => some (a == b)
-  | .float a, .float b => some (f64Eq a b)      -- value.rs:541 `l == r` on f64
+  | .float a, .float b => some (a == b)         -- value.rs:542 `l.to_bits() == r.to_bits()`
   | _, _ => none
 
 /-- `unroot_`: find the value among the rooted ones; `false` = `ice!("Rooted value has already been
@@ -515,12 +512,20 @@ def objEq : GV → GV → Option Bool
 def unrootFinds (rooted : List GV) (v : GV) : Bool :=
   rooted.any (fun p => objEq p v == some true)
 
-/-- the same with floats compared by bit pattern (the suggested fix) -/
-def objEqFixed : GV → GV → Option Bool
-  | .float a, .float b => some (a == b)
+/-- the unboxed values (the ones `obj_eq` compares by content) -/
+def unboxed : GV → Bool
+  | .tag _ => true | .byte _ => true | .int _ => true | .float _ => true | _ => false
+
+/-- IEEE `==` on f64 bit patterns -/
+def f64Eq (a b : Nat) : Bool :=
+  !isNaN64 a && !isNaN64 b && (a == b || (a % 9223372036854775808 == 0 && b % 9223372036854775808 == 0))
+
+/-- the rule before 5d628f8: floats compared with `==` (a NaN is never found) -/
+def objEqOld : GV → GV → Option Bool
+  | .float a, .float b => some (f64Eq a b)
   | x, y => objEq x y
 
-def unrootFindsFixed (rooted : List GV) (v : GV) : Bool :=
-  rooted.any (fun p => objEqFixed p v == some true)
+def unrootFindsOld (rooted : List GV) (v : GV) : Bool :=
+  rooted.any (fun p => objEqOld p v == some true)
 
 end GluonModel.Marshal
